@@ -427,6 +427,12 @@ class Interp:
         if op == 'Eq':
             return self.equals(a, b)
         if op == 'NotEq':
+            # `!=` is its own dunder (__ne__): array-like values answer elementwise, not with a truth value
+            for x, y in ((a, b), (b, a)):
+                if hasattr(x, 'py_ne'):
+                    r = x.py_ne(self, y)
+                    if r is not NOT_IMPLEMENTED:
+                        return r
             return z_not(self.truth_term(self.equals(a, b)))
         for x, refl in ((a, False), (b, True)):
             if hasattr(x, 'py_compare'):
@@ -790,6 +796,9 @@ class Interp:
             if f.name not in vals:
                 if f.has_default and f.default is not None:
                     vals[f.name] = self.ev(f.default, Frame(self.P.modules[ci.module]))
+                elif f.has_default and getattr(f, 'factory', None) is not None:
+                    # dataclass semantics: default_factory is called with no argument for every new instance
+                    vals[f.name] = self.call(self.ev(f.factory, Frame(self.P.modules[ci.module])), [], {})
                 elif f.has_default:
                     raise Unsupported('default_factory field')
                 else:
